@@ -9,7 +9,7 @@ ASSUMPTIONS = [
     '(functor storage comes from alignedMalloc instead of the small-buffer pools, the subject of C41)',
     'node functors do not throw and do not touch the graph',
 ]
-OUTSIDE = ('graphs with more than 3 (quick) / 4 (thorough) nodes; node insertion orders in which a node depends on a '
+OUTSIDE = ('graphs with more than 3 nodes; symbolic shape selection (every instance is one literal shape: the 3-bit symbolic selector exceeded 900 s); BiPropGraph; node insertion orders in which a node depends on a '
            'later-added node; ParallelForExecutor and ConcurrentTaskSetExecutor (their lowering drags parallel_for + '
            'ThreadPool into the already heavy libstdc++ lowering; not encoded); more than one subgraph and '
            'subgraph clear/rebuild; graph move construction/assignment; functors with captures')
@@ -22,7 +22,7 @@ def _inst(name, src, nodes, biprop, tiers, unwind, bounds, timeout=900, extra=No
     d = {'name': name, 'src': src, 'engine': 'cbmc', 'repo_sources': _SRC,
          'models': ['aligned_alloc'], 'ptrdiff': True,
          'intercept': {'_ZN8dispenso14PoolAllocatorTILb0EE5allocEv': 'vf_c30_pool_alloc'},
-         'rt_extra': ['harness/C30/pool_model.c'],
+         'rt_extra': ['harness/C30/pool_model.c'], 'native_extra': ['harness/C30/native_link.cpp'],
          'rt_defs': {'VF_C30_NODE_T': _NODE_T[biprop]},
          'cflags': ['-DDISPENSO_NO_SMALL_BUFFER_ALLOCATOR'],
          'defs': {'VF_NODES': nodes, 'VF_BIPROP': biprop},
@@ -50,5 +50,6 @@ def _shape(k, tiers, rearm, bshape=None):
 
 # quick: the four shapes with two edges or more; thorough: all 8 shapes incl. re-arming, two BiPropGraph shapes
 INSTANCES = ([_shape(k, ['quick'], 0) for k in (3, 5, 6, 7)] +
-             [_shape(k, ['thorough'], 1) for k in range(8)] +
-             [_shape(7, ['thorough'], 1, 5), _shape(6, ['thorough'], 1, 6)])
+             [_shape(k, ['thorough'], 1) for k in range(8)])
+# not part of the check (time out, see NOTES.md): symbolic 3-bit shape selector, 4 nodes, BiPropGraph shapes
+_REFERENCE = [_shape(7, ['thorough'], 1, 5), _shape(6, ['thorough'], 1, 6)]
